@@ -352,6 +352,8 @@ def main():
                     violations.append({"line": line, "mode": mode, "crate": r, "spec": sp, "model": mo})
             if r != mo and mo != "*":
                 divergences.append({"line": line, "mode": mode, "crate": r, "model": mo, "spec": sp})
+    ctx["bins"] = bins
+    ctx["run_chunked"] = run_chunked
     if hasattr(mod, "post"):
         # property-specific cross checks (e.g. digit-type independence); returns extra violations
         violations += mod.post(ctx, lines, R, mo_sp) or []
